@@ -44,6 +44,7 @@ type leafInfo struct {
 	holdsPipe  bool // still has the task's output pipe open
 	inSh       bool // lives inside an sh -c, i.e. is not the process the executor started itself
 	interpBg   bool // under an interpreter-level background command
+	resetOnly  bool // dies from the interrupt only because it restores the default action itself, after it has come up
 }
 
 func genNode(t *rapid.T, depth int, inSh bool) *node {
@@ -97,7 +98,7 @@ func (n *node) render(vh, marker, ready string, inSh, bgOfSh, interpBg, piped bo
 		if n.redirect {
 			s += " >/dev/null 2>&1"
 		}
-		*leaves = append(*leaves, leafInfo{surviveInt: n.ignore || (bgOfSh && !n.reset), holdsPipe: !n.redirect, inSh: inSh, interpBg: interpBg})
+		*leaves = append(*leaves, leafInfo{surviveInt: n.ignore || (bgOfSh && !n.reset), holdsPipe: !n.redirect, inSh: inSh, interpBg: interpBg, resetOnly: bgOfSh && n.reset && !n.ignore})
 		return s
 	case "sh":
 		var parts []string
@@ -379,6 +380,18 @@ func TestC20(t *testing.T) {
 		}
 		killTimeout := time.Duration(rapid.IntRange(450, 700).Draw(rt, "killTimeoutMs")) * time.Millisecond
 		early := rapid.IntRange(0, 3).Draw(rt, "cancelEarly") == 0
+		for _, l := range leaves {
+			// A background child of sh starts with the interrupt ignored and restores the default action itself:
+			// an interrupt that comes before it has done so is ignored. Canceled that early, such a leaf is an
+			// interrupt survivor, and if it is detached as well it has the shape of a recorded finding - so
+			// these trees are canceled only once they are up.
+			survivesEarly := l
+			survivesEarly.surviveInt = l.surviveInt || l.resetOnly
+			if early && l.resetOnly && (findingF1(survivesEarly) || findingF2(survivesEarly)) {
+				early = false
+				col.Class("early-cancel-not-applicable(reset-int leaf would be a recorded-finding shape)")
+			}
+		}
 		cancelAfter := time.Duration(rapid.IntRange(0, 120).Draw(rt, "cancelAfterMs")) * time.Millisecond
 		viaShutdown := rapid.IntRange(0, 4).Draw(rt, "viaForcedShutdown") == 0
 		canary := time.Now()
